@@ -57,6 +57,11 @@ Pool == {
   U("circle", "image", Pix, <<V("mpix", 4250)>>, NoAng, FALSE, "reg", [label |-> "p"]),
   U("rectangle", "image", Pix, <<V("mpix", 6000), V("mpix", 2000)>>, V("mas", 108000000), TRUE, "reg", NoProps),
   U("ellipse", "image", Pix, <<V("mpix", 6000), V("mpix", 2000)>>, V("mas", 162000000), FALSE, "ann", NoProps),
+  U("cannulus", "image", Pix, <<V("mpix", 2250), V("mpix", 5000)>>, NoAng, TRUE, "reg", NoProps),
+  U("polygon", "image", Pix \o <<V("mpix", 20000), V("mpix", 3500), V("mpix", 14250), V("mpix", 9000)>>, <<>>, NoAng, FALSE, "reg", [color |-> "green"]),
+  U("line", "image", Pix \o <<V("mpix", 20000), V("mpix", 9500)>>, <<>>, NoAng, TRUE, "reg", NoProps),
+  U("point", "image", Pix, <<>>, NoAng, TRUE, "reg", NoProps),
+  U("text", "image", Pix, <<>>, NoAng, FALSE, "reg", [text |-> "pixel text"]),
   U("circle", "fk5", Sky, <<V("mas", 3600000)>>, NoAng, FALSE, "ann", [label |-> "excluded annotation"]) }
 RadUnits(frame) == IF frame = "image" THEN {"pix", "deg"} ELSE {"deg", "arcmin", "arcsec"}
 
